@@ -1388,6 +1388,16 @@ class ContactHandler(Messenger, dbus.service.Object):
     @dbus.service.method(DBUS_IFACE, in_signature='', out_signature='')
     def close(self):
         ''' Close the TCP connection immediately. '''
+        # Transfers which were never started will not be sent
+        while self._tx_pend_start:
+            item = self._tx_pend_start.pop(0)
+            self._tx_map.pop(item.transfer_id, None)
+            self.send_bundle_finished(
+                str(item.transfer_id),
+                item.total_length or 0,
+                'session terminating'
+            )
+
         if tuple(self.locations):
             self.remove_from_connection()
 
